@@ -104,7 +104,10 @@ impl Prop for C01 {
         }
         // sender context kept alive so that it can decode its own packet
         let store = CtxStore::new(&CtxCfg { addr: env.addr, msg_types: vec![], vendors: vec![(0, 0x1234, 0xAB)] });
-        let sender = store.ctx();
+        let mut sender = store.ctx();
+        for op in &env.hist {
+            let _ = sut::apply_op(&mut sender, op);
+        }
         sut::apply_env(&sender, env);
         let mut buf = vec![0xA5u8; BIG];
         let len = match sut::encode(&sender, call, env.dest, &mut buf) {
